@@ -107,12 +107,14 @@ structure Inv (p : Params) (c : Cfg) : Prop where
         ((c.ws i).after = 1 → (c.ws i).pc = .loop ∨ (c.ws i).pc = .done) ∧
         (p.daemon = false → (c.ws i).pc = .done ∧ (c.ws i).after = 0)
   g3 : ∀ i, (c.ws i).stopRet = false → (c.ws i).after = 0
-  /-- an armed worker has not left (and is not about to leave) `run` -/
-  g4 : ∀ i, Act p (c.ws i) → (c.ws i).pc ≠ .ret ∧ (c.ws i).pc ≠ .done
+  /-- an armed worker has not left (and is not about to leave) `run`, unless its callback raised -/
+  g4 : ∀ i, Act p (c.ws i) → (c.ws i).pc ≠ .ret ∧ ((c.ws i).pc = .done → (c.ws i).crashed = true)
   g5 : ∀ i, c.nw ≤ i → c.ws i = {}
   g5' : ∀ k, c.thread = some k → k < c.nw
   g7 : ∀ k, c.thread = some k → (c.ws k).stopRet = false
   g8 : p.mode = .fixed → ∀ i, (c.ws i).pc ≠ .arm
+  /-- a worker whose callback raised has left `run` -/
+  g9 : ∀ i, (c.ws i).crashed = true → (c.ws i).pc = .done
   b : atBoundary c → lastOk p c
 
 
@@ -131,18 +133,20 @@ structure WStep (p : Params) (w w' : Worker) : Prop where
   ne' : w'.pc ≠ .created
   nd : w.pc ≠ .done
   sr : w'.stopRet = w.stopRet
-  aft : w'.after = w.after ∨ (w.pc = .call ∧ w.stopRet = true ∧ w'.after = w.after + 1 ∧ w'.pc = .loop)
+  aft : w'.after = w.after ∨
+    (w.pc = .call ∧ w.stopRet = true ∧ w'.after = w.after + 1 ∧ (w'.pc = .loop ∨ w'.pc = .done))
   lp : w.pc = .loop → w.running = false → w'.pc = .done ∧ w'.after = w.after
-  rt : (w'.pc = .ret ∨ w'.pc = .done) → ¬ Act p w'
+  rt : (w'.pc = .ret ∨ (w'.pc = .done ∧ w'.crashed = false)) → ¬ Act p w'
   fx : p.mode = .fixed → w'.pc ≠ .arm
+  cr : w'.crashed = true → w'.pc = .done
 
 theorem inv_setW {p : Params} {c : Cfg} (i : Nat) (w' : Worker) (h : Inv p c) (hlt : i < c.nw)
     (s : WStep p (c.ws i) w') : Inv p (setW c i w') := by
-  obtain ⟨hctl, g1, g2, g3, g4, g5, g5', g7, g8, b⟩ := h
-  obtain ⟨act, ne, ne', nd, sr, aft, lp, rt, fx⟩ := s
+  obtain ⟨hctl, g1, g2, g3, g4, g5, g5', g7, g8, g9, b⟩ := h
+  obtain ⟨act, ne, ne', nd, sr, aft, lp, rt, fx, cr⟩ := s
   have g1i := g1 i; have g2i := g2 i; have g3i := g3 i; have g4i := g4 i
-  refine ⟨ctlInv_setW i _ act ne ne' nd hctl, ?_, ?_, ?_, ?_, ?_, ?_, ?_, ?_, ?_⟩
-  all_goals simp only [setW, atBoundary, lastOk, Cur] at g1 g2 g3 g4 g5 g5' g7 g8 b g1i g2i g3i g4i ⊢
+  refine ⟨ctlInv_setW i _ act ne ne' nd hctl, ?_, ?_, ?_, ?_, ?_, ?_, ?_, ?_, ?_, ?_⟩
+  all_goals simp only [setW, atBoundary, lastOk, Cur] at g1 g2 g3 g4 g5 g5' g7 g8 g9 b g1i g2i g3i g4i ⊢
   · grind
   · intro j; by_cases hj : j = i
     · subst hj; simp only [if_true]; simp only [Act] at *; grind
@@ -153,11 +157,12 @@ theorem inv_setW {p : Params} {c : Cfg} (i : Nat) (w' : Worker) (h : Inv p c) (h
   · grind
   · grind
   · grind
+  · grind
   · intro hb; have := b hb; split at this <;> grind
 
-theorem inv_stepW {p : Params} {c : Cfg} (i : Nat) (h : Inv p c)
-    (hen : enabled c (.w i) = true) : Inv p (stepW p c i) := by
-  have g4i := h.g4 i; have g8i := fun hm => h.g8 hm i; have g2i := h.g2 i
+theorem inv_stepW {p : Params} {c : Cfg} (i : Nat) (boom : Bool) (h : Inv p c)
+    (hen : enabled c (.w i) = true) : Inv p (stepW p c i boom) := by
+  have g4i := h.g4 i; have g8i := fun hm => h.g8 hm i; have g2i := h.g2 i; have g9i := h.g9 i
   simp only [enabled, Bool.and_eq_true, decide_eq_true_eq, ne_eq] at hen
   obtain ⟨⟨hlt, hne⟩, hnd⟩ := hen
   unfold stepW
@@ -165,7 +170,7 @@ theorem inv_stepW {p : Params} {c : Cfg} (i : Nat) (h : Inv p c)
   all_goals first
     | contradiction
     | (apply inv_setW i _ h hlt
-       constructor <;> simp only [Act, hpc, hm] at g4i g8i g2i ⊢ <;> grind)
+       constructor <;> simp only [Act, hpc, hm] at g4i g8i g2i g9i ⊢ <;> grind)
 
 /-- the part of the invariant that only depends on `thread`, `ws`, `nw` -/
 def Glob (p : Params) (c : Cfg) : Prop :=
@@ -175,19 +180,20 @@ def Glob (p : Params) (c : Cfg) : Prop :=
         ((c.ws i).after = 1 → (c.ws i).pc = .loop ∨ (c.ws i).pc = .done) ∧
         (p.daemon = false → (c.ws i).pc = .done ∧ (c.ws i).after = 0)) ∧
   (∀ i, (c.ws i).stopRet = false → (c.ws i).after = 0) ∧
-  (∀ i, Act p (c.ws i) → (c.ws i).pc ≠ .ret ∧ (c.ws i).pc ≠ .done) ∧
+  (∀ i, Act p (c.ws i) → (c.ws i).pc ≠ .ret ∧ ((c.ws i).pc = .done → (c.ws i).crashed = true)) ∧
   (∀ i, c.nw ≤ i → c.ws i = {}) ∧
   (∀ k, c.thread = some k → k < c.nw) ∧
   (∀ k, c.thread = some k → (c.ws k).stopRet = false) ∧
-  (p.mode = .fixed → ∀ i, (c.ws i).pc ≠ .arm)
+  (p.mode = .fixed → ∀ i, (c.ws i).pc ≠ .arm) ∧
+  (∀ i, (c.ws i).crashed = true → (c.ws i).pc = .done)
 
 theorem Inv.glob {p : Params} {c : Cfg} (h : Inv p c) : Glob p c :=
-  ⟨h.g1, h.g2, h.g3, h.g4, h.g5, h.g5', h.g7, h.g8⟩
+  ⟨h.g1, h.g2, h.g3, h.g4, h.g5, h.g5', h.g7, h.g8, h.g9⟩
 
 theorem Inv.ofGlob {p : Params} {c : Cfg} (G : Glob p c) (hctl : ctlInv p c)
     (hb : atBoundary c → lastOk p c) : Inv p c := by
-  obtain ⟨g1, g2, g3, g4, g5, g5', g7, g8⟩ := G
-  exact ⟨hctl, g1, g2, g3, g4, g5, g5', g7, g8, hb⟩
+  obtain ⟨g1, g2, g3, g4, g5, g5', g7, g8, g9⟩ := G
+  exact ⟨hctl, g1, g2, g3, g4, g5, g5', g7, g8, g9, hb⟩
 
 theorem glob_of_same {p : Params} {c c' : Cfg} (G : Glob p c)
     (h1 : c'.thread = c.thread) (h2 : c'.ws = c.ws) (h3 : c'.nw = c.nw) : Glob p c' := by
@@ -227,10 +233,10 @@ theorem glob_mark {p : Params} {c : Cfg} (G : Glob p c) (k : Nat) (ht : c.thread
     (h1 : (c.ws k).stopRet = false) (h2 : ¬ Act p (c.ws k)) (h3 : (c.ws k).pc ≠ .created)
     (h4 : p.daemon = false → (c.ws k).pc = .done) :
     Glob p { setW c k { c.ws k with stopRet := true } with cancelled := none } := by
-  obtain ⟨g1, g2, g3, g4, g5, g5', g7, g8⟩ := G
+  obtain ⟨g1, g2, g3, g4, g5, g5', g7, g8, g9⟩ := G
   have g3k := g3 k h1
   simp only [Glob, setW, Act] at *
-  refine ⟨?_, ?_, ?_, ?_, ?_, ?_, ?_, ?_⟩
+  refine ⟨?_, ?_, ?_, ?_, ?_, ?_, ?_, ?_, ?_⟩
   · grind
   · intro j; by_cases hj : j = k
     · subst hj; simp only [if_true]; grind
@@ -240,6 +246,7 @@ theorem glob_mark {p : Params} {c : Cfg} (G : Glob p c) (k : Nat) (ht : c.thread
   · intro j hj; by_cases hjk : j = k
     · subst hjk; have := g5 j hj; rw [this] at h3; simp at h3
     · simp only [hjk, if_false]; exact g5 j hj
+  · grind
   · grind
   · grind
   · grind
@@ -277,10 +284,10 @@ macro "pc_only" h:ident hctl:ident hpc:ident : tactic => `(tactic|
 
 /-- a controller line that updates a worker or `thread`: all fields by brute force -/
 macro "upd" G:ident hctl:ident hpc:ident : tactic => `(tactic|
-  (obtain ⟨g1, g2, g3, g4, g5, g5', g7, g8⟩ := $G:ident
+  (obtain ⟨g1, g2, g3, g4, g5, g5', g7, g8, g9⟩ := $G:ident
    simp only [ctlInv, $hpc:ident, InStart, InStop, Cur, Act] at $hctl:ident
-   refine Inv.ofGlob ⟨?_, ?_, ?_, ?_, ?_, ?_, ?_, ?_⟩ ?_ ?_
-   all_goals simp only [ctlInv, setW, atBoundary, InStart, InStop, Cur, Act] at g1 g2 g3 g4 g5 g5' g7 g8 ⊢
+   refine Inv.ofGlob ⟨?_, ?_, ?_, ?_, ?_, ?_, ?_, ?_, ?_⟩ ?_ ?_
+   all_goals simp only [ctlInv, setW, atBoundary, InStart, InStop, Cur, Act] at g1 g2 g3 g4 g5 g5' g7 g8 g9 ⊢
    all_goals grind))
 
 theorem inv_stepCtl {p : Params} {c : Cfg} (h : Inv p c)
@@ -336,9 +343,9 @@ theorem inv_stepCtl {p : Params} {c : Cfg} (h : Inv p c)
   case sp13 =>
     simp only [ctlInv, hpc] at hctl
     obtain ⟨hs, k, hk, hcan, hna, hne, hd⟩ := hctl
-    obtain ⟨g1, g2, g3, g4, g5, g5', g7, g8⟩ := G
+    obtain ⟨g1, g2, g3, g4, g5, g5', g7, g8, g9⟩ := G
     refine inv_retStop (p := p) ?G ?hs rfl ?hc
-    case G => refine ⟨?_, g2, g3, g4, g5, ?_, ?_, g8⟩ <;> simp only [] <;> grind
+    case G => refine ⟨?_, g2, g3, g4, g5, ?_, ?_, g8, g9⟩ <;> simp only [] <;> grind
     case hs => simpa [InStop] using hs
     intro k' hk'
     simp only [hcan, Option.some.injEq] at hk'
@@ -353,7 +360,7 @@ theorem inv_stepCtl {p : Params} {c : Cfg} (h : Inv p c)
 theorem inv_init (p : Params) (calls : List Call) : Inv p (init calls) := by
   unfold init enter
   split <;>
-  · refine Inv.ofGlob ⟨?_, ?_, ?_, ?_, ?_, ?_, ?_, ?_⟩ ?_ ?_
+  · refine Inv.ofGlob ⟨?_, ?_, ?_, ?_, ?_, ?_, ?_, ?_, ?_⟩ ?_ ?_
     all_goals simp [ctlInv, InStart, InStop, Cur, Act, atBoundary, lastOk]
 
 theorem inv_step {p : Params} {c : Cfg} (t : Tid) (h : Inv p c) (hok : okStep p c t = true) :
@@ -363,7 +370,8 @@ theorem inv_step {p : Params} {c : Cfg} (t : Tid) (h : Inv p c) (hok : okStep p 
   · rename_i hen
     cases t with
     | ctl => exact inv_stepCtl h hen hok
-    | w i => exact inv_stepW i h hen
+    | w i => exact inv_stepW i false h hen
+    | wx i => exact inv_stepW i true h hen
   · exact h
 
 theorem inv_of_reach {p : Params} {calls : List Call} {c : Cfg} (h : Reach p calls c) : Inv p c := by
